@@ -96,8 +96,16 @@ var c02SideMu sync.Mutex
 var c02SideN int
 
 func c02Event(text, parent string, loc poly.Location) map[string]interface{} {
+	// the structure is written to text FIRST, evaluated afterwards and written again: writing must not alter it
+	// (viastruct is the evaluation after the write, printed2 the second write)
+	before := seqOf(loc, parent)
+	p1 := printed(loc)
+	after := seqOf(loc, parent)
+	if after != before {
+		after = "<after writing the location to text: " + after + "; before: " + before + ">"
+	}
 	return map[string]interface{}{"k": "loc", "text": text, "parent": parent, "viaparser": viaParser(text, parent),
-		"viarecord": viaRecord(text, parent), "viastruct": seqOf(loc, parent), "printed": printed(loc)}
+		"viarecord": viaRecord(text, parent), "viastruct": after, "printed": p1, "printed2": printed(loc)}
 }
 
 func c02Replay(c json.RawMessage) Verdict {
@@ -122,6 +130,22 @@ func c02Replay(c json.RawMessage) Verdict {
 		if got := seqOf(loc, pb[0]); got != pb[1] {
 			return bad("location %s on parent %s: assembled structure gives %q, INSDC reading is %q", cs.Text, pb[0], got, pb[1])
 		}
+	}
+	// writing a location to text must not alter it: evaluate again after BuildLocationString, and write twice
+	p1 := printed(loc)
+	if got := seqOf(loc, cs.P1); got != cs.B1 {
+		return bad("location %s on parent %s: after the structure was written to text (%s) it gives %q, INSDC reading is %q", cs.Text, cs.P1, p1, got, cs.B1)
+	}
+	if p2 := printed(loc); p2 != p1 {
+		return bad("location %s: written to text twice, the structure gives %q and then %q", cs.Text, p1, p2)
+	}
+	parsed := genbank.VerifParseLocation(cs.Text)
+	q1 := printed(parsed)
+	if got := seqOf(parsed, cs.P1); got != cs.B1 {
+		return bad("location %s on parent %s: after the parsed location was written to text (%s) it gives %q, INSDC reading is %q", cs.Text, cs.P1, q1, got, cs.B1)
+	}
+	if q2 := printed(parsed); q2 != q1 {
+		return bad("location %s: the parsed location written to text twice gives %q and then %q", cs.Text, q1, q2)
 	}
 	// the printed form is judged by the specification's INSDC recogniser (C02_Trace): side file
 	if c02Side != nil {
